@@ -7,9 +7,10 @@
     [O] stands for std's Ipv4Addr/Ipv6Addr parsers and formatters, about which only
     [std_like O] is assumed (and shown satisfiable).
 
-    NOT covered (the property's last sentence): the DNS TXT record parser
-    [scion_stack::resolver::txt::parse_txt_payload] is a private function. *)
-From Sci Require Import Text.Model Text.Spec Text.Proofs.
+    [parse_kind O K_TXT] is the DNS TXT record parser of scion-stack (resolver/txt.rs,
+    reached through a verif-hooks entry point); it has no [Display], its "displayed form" is
+    the record grammar of the module documentation ([display_txt]). *)
+From Sci Require Import Text.Model Text.Spec Text.Proofs Text.ProofsTxt.
 Local Open Scope N_scope.
 
 (** ** identifiers: display then parse is the identity, for every value of the type *)
@@ -61,39 +62,65 @@ Theorem service_parse_exact : forall s v, parse_svc s = Ok v -> norm_svc s = dis
 Proof. exact parse_svc_exact. Qed.
 Print Assumptions service_parse_exact.
 
-(** ** all fifteen types: display then parse is the identity.
+(** ** all fifteen types and the TXT record: display then parse is the identity.
     PARTIAL with respect to "every host value": service addresses outside the three named
     services are excluded ([val_named]); for those the sentence is refuted
-    (Findings.svc_unnamed_roundtrip_refuted, known finding C15-svc-unnamed). *)
+    (Findings.svc_unnamed_roundtrip_refuted, known finding C15-svc-unnamed).
+    [val_wf] is the value range of the Rust type; [display_kind O k v = Some d] says the
+    k-th type can hold [v] (for TXT: a non-empty list of IP hosts) and displays it as [d]. *)
 Theorem display_parse_partial :
   forall O, std_like O -> forall k v d,
     val_wf k v = true -> val_named k v = true -> display_kind O k v = Some d ->
     parse_kind O k d = Ok v.
-Proof.
-  intros O (RT4 & RT6 & CH4 & CH6) k v d. exact (kind_display_parse O RT4 RT6 CH4 CH6 k v d).
-Qed.
+Proof. intros O HO k v d. exact (kind_display_parse_all O k v d HO). Qed.
 Print Assumptions display_parse_partial.
 
-(** ** all fifteen types: a string is accepted only if it normalises to a form of the value
-    (no leading or trailing garbage, no other spelling) *)
+(** ** all fifteen types and the TXT record: a string is accepted only if it normalises to a
+    form of the value (no leading or trailing garbage, no other spelling) *)
 Theorem parse_exact :
   forall O, std_like O -> forall k s v, parse_kind O k s = Ok v -> In (norm O k s) (forms O k v).
-Proof.
-  intros O (RT4 & RT6 & CH4 & CH6) k s v. apply kind_parse_exact; assumption.
-Qed.
+Proof. intros O HO k s v. exact (kind_parse_exact_all O k s v HO). Qed.
 Print Assumptions parse_exact.
 
-(** ** all fifteen types: no string makes a parser panic -- for every IP oracle whatsoever.
-    [utf8_ok] is the structural part of the UTF-8 invariant of Rust's [&str]. *)
+(** ** all fifteen types and the TXT record: no string makes a parser panic -- for every IP
+    oracle whatsoever.  [utf8_ok] is the structural part of the UTF-8 invariant of Rust's
+    [&str] (byte-index slicing panics off a char boundary; see Findings.invalid_utf8_slice). *)
 Theorem parse_never_panics :
   forall O k s, utf8_ok s = true -> is_panic (parse_kind O k s) = false.
 Proof. exact parse_kind_nopanic. Qed.
 Print Assumptions parse_never_panics.
 
+(** the repaired defect, spelled out for every IP oracle: whatever a socket-address parser
+    accepts is '[' address ']' ':' port, with nothing in front of the bracket and nothing
+    after the port token *)
+Theorem socket_accept_shape :
+  forall O k e s r, parse_socket_addr O k e s = Ok r ->
+    exists body port, s = [c_lbr] ++ body ++ [c_rbr; c_colon] ++ port /\ ~ In c_colon port /\
+      (exists p, parse_uint 10 U16_MAX port = Some p /\ snd r = p) /\
+      parse_scion_addr O k body = Ok (fst r).
+Proof. exact parse_socket_addr_shape. Qed.
+Print Assumptions socket_accept_shape.
+
+(** the TXT instance of [display_parse_partial], spelled out *)
+Theorem txt_display_parse :
+  forall O, std_like O -> forall l, l <> [] ->
+    forallb (fun p => (fst p <? 2 ^ 64) && host_wf (snd p) && is_ip (snd p)) l = true ->
+    parse_txt_record O (display_txt O l) = Ok l.
+Proof.
+  intros O (RT4 & RT6 & CH4 & CH6) l. exact (parse_txt_record_display O RT4 RT6 CH4 CH6 l).
+Qed.
+Print Assumptions txt_display_parse.
+
 (** the assumptions on std's IP text are satisfiable *)
 Theorem ip_assumptions_satisfiable : exists O, std_like O.
 Proof. exists toy_oracle. exact toy_oracle_std_like. Qed.
 Print Assumptions ip_assumptions_satisfiable.
+
+(** non-vacuity: a TXT record through the toy oracle *)
+Example txt_example :
+  parse_kind toy_oracle K_TXT (display_txt toy_oracle [(281474976710657, H4 7); (562949953421314, H6 255)])
+  = Ok (VList [(281474976710657, H4 7); (562949953421314, H6 255)]).
+Proof. vm_compute. reflexivity. Qed.
 
 (** non-vacuity: a socket address with an IPv6 host through the toy oracle *)
 Example display_parse_example :
